@@ -1,24 +1,35 @@
 """Positive controls: in-memory break variants of the *current* tree that a rule must report on every run.
-A control that stops matching makes the run fail as ANALYSIS-ERROR (exit 2) instead of passing vacuously."""
+They guard against vacuous passes: when the main analysis is silent and a control cannot be applied or is not reported, the run
+fails as ANALYSIS-ERROR (exit 2). When the main analysis already reports violations the control outcome is only recorded (a change
+that breaks the very construct a control edits must surface as a VIOLATION, not as a broken check)."""
 from __future__ import annotations
 
-from typing import List
+from typing import List, Tuple
 
 from ..core import AnalysisError
 
 
-def run_controls(names: List[str]) -> dict:
+def run_controls(names: List[str]) -> Tuple[dict, List[str]]:
     from ..selftest import VARIANTS, run_variant
     from .. import variants  # noqa: F401 (registers the catalogue)
     out = {}
+    failures = []
     for name in names:
         v = VARIANTS.get(name)
         if v is None:
             raise AnalysisError(f"positive control {name} is not defined")
-        res = run_variant(v)
+        try:
+            res = run_variant(v, presence=True)
+        except AnalysisError as e:
+            out[name] = f"analysis error on the control variant: {e}"
+            failures.append(f"positive control {name}: {e}")
+            continue
         if not res["applied"]:
-            raise AnalysisError(f"positive control {name}: the construct it edits was not found (anchor vanished)")
-        if not res["detected"]:
-            raise AnalysisError(f"positive control {name}: rule {v.rule} did not report the broken instance ({v.expect})")
-        out[name] = "reported"
-    return out
+            out[name] = "edit site not found"
+            failures.append(f"positive control {name}: the construct it edits was not found (anchor vanished)")
+        elif not res["detected"]:
+            out[name] = "not reported"
+            failures.append(f"positive control {name}: rule {v.rule} did not report the broken instance ({v.expect})")
+        else:
+            out[name] = "reported"
+    return out, failures
